@@ -178,6 +178,17 @@ CREATE OR REPLACE MACRO vtl_interval_to_string(i vtl_time_interval) AS (
 -- CAST MACROS: Cross-type conversions for VTL cast operator
 -- ============================================================================
 
+-- String (VARCHAR) -> Integer (BIGINT): only valid integer strings (rejects "3.5")
+-- Reference: Integer.explicit_cast from String in DataTypes/__init__.py
+CREATE OR REPLACE MACRO vtl_string_to_integer(s) AS (
+    CASE
+        WHEN s IS NULL THEN NULL
+        WHEN regexp_full_match(TRIM(CAST(s AS VARCHAR)), '[+-]?[0-9]+') THEN
+            CAST(TRIM(CAST(s AS VARCHAR)) AS BIGINT)
+        ELSE error('Cannot cast String to Integer: ' || CAST(s AS VARCHAR))
+    END
+);
+
 -- Date (TIMESTAMP) -> TimePeriod (VARCHAR): always daily period
 -- Reference: date_to_period_str(value, 'D') in TimeHandling.py
 CREATE OR REPLACE MACRO vtl_date_to_period(d) AS (
